@@ -284,6 +284,61 @@ E2E_COUNTS['thorough']['dryrun'] = 2500
 E2E_RULES['dryrun'] = ('generated histories as plain repositories and as fresh clones with an origin remote and remote-tracking refs; the real CLI with --dry-run and a generated option set plus a rotating subset of --force, --backup, --sensitive --no-fetch, --write-report, --cleanup aggressive; full snapshot before/after (refs, HEAD, status, local config, remotes, object list, sha1 of every file under .git outside filter-repo/, work tree) must be identical and no bundle may appear; then the same options without --dry-run on a copy: fast-export.filtered must be byte-identical. Non-trivial: the dry run is accepted.')
 
 
+E2E_COUNTS['quick']['backup'] = 120
+E2E_COUNTS['thorough']['backup'] = 2500
+E2E_RULES['backup'] = ('generated histories (annotated tags, refs outside heads/tags) as plain repositories and clones with remote-tracking refs, attached and detached HEAD; the real CLI with --force --backup and a generated option set, rotating the default location, the directory form and the file form of --backup-path, and an unwritable destination; then git bundle verify, bundle list-heads = pre-run for-each-ref, mirror clone of the bundle + fsck + every pre-run reachable object present; for the unwritable destination: non-zero exit and refs/HEAD/status/config/remotes/objects/work tree unchanged. Non-trivial: a bundle is written or refused.')
+
+
+@runner
+def e2e_backup(ctx):
+    _e2e(ctx, ['backup'], fn_name='backup_case', gen_mode='filter', label='backup')
+
+
+@runner
+def e2e_sanity(ctx):
+    """all 2^9 subsets of the documented violations on a fresh non-bare clone; bare and config variants"""
+    from . import e2e
+    with C.BuildLock():
+        ok, out = C.cli_build()
+    if not ok:
+        raise C.Infra('the CLI of /repo does not build')
+    t0 = time.time()
+    step_bare, step_cfg = (1, 5) if ctx.tier == 'thorough' else (7, 37)
+    cases = [dict(id=m, mask=m, bare=False) for m in range(512)]
+    cases += [dict(id=1000 + m, mask=m, bare=True) for m in range(0, 512, step_bare)]
+    cases += [dict(id=2000 + m, mask=m, bare=False, ignorecase=True) for m in range(0, 512, step_cfg)]
+    results = e2e.run_pool(e2e.sanity_case, cases)
+    dist, mine = {}, []
+    for r in results:
+        for k, v in r['dist'].items():
+            dist[k] = dist.get(k, 0) + v
+        if r.get('error'):
+            dist['harness-errors'] = dist.get('harness-errors', 0) + 1
+            ctx.notes.append(f"e2e(sanity) harness error: {r['error'][:200]}")
+        for (p, msg) in r['failures']:
+            mine.append((r['id'], msg))
+    ctx.parts.append(dict(name='e2e(sanity)', evaluations=len(cases), distinct_nontrivial=dist.get('refused', 0),
+                          rule='exhaustive: every subset of the nine documented freshness violations (unstaged, staged, untracked, stash, extra reflog entries, extra worktree, extra remote, unpushed branch, loose object) applied to a fresh non-bare clone (2^9 = 512 states), a sample of the subsets on a fresh bare clone and with core.ignorecase/precomposeunicode set; the repository facts are gathered independently with plumbing, the Lean model of the pre-flight predicts accept/refuse and which error, and the real CLI (without --force) is compared with it; a refused run must leave refs, HEAD, status, config, remotes, objects, work tree and every file under .git outside filter-repo/ unchanged; --force is checked to bypass. Non-trivial: the run is refused.',
+                          samples=[{'mask': cases[5]['mask'], 'violations': [v for i, v in enumerate(e2e.VIOLATIONS) if cases[5]['mask'] >> i & 1]}],
+                          distribution=dist, wall_s=round(time.time() - t0, 1), exhaustive=True, impl_property_failures_for_this_property=len(mine)))
+    for cid, msg in mine[:3]:
+        case = [c for c in cases if c['id'] == cid][0]
+        path = C.write_replay(ctx.pid, 'oracle-failure', dict(runner='e2e_sanity', case=case, property_failure=msg))
+        ctx.violations.append((path, False, msg[:300]))
+
+
+def _replay_sanity(ctx, doc, path):
+    from . import e2e
+    with C.BuildLock():
+        C.cli_build()
+    r = e2e.sanity_case(doc['case'])
+    print(json.dumps(r, indent=1)[:2000])
+    if r['failures']:
+        print(f'VIOLATION property={ctx.pid} replay={path}')
+        return 1
+    return 0
+
+
 @runner
 def e2e_dryrun(ctx):
     _e2e(ctx, ['dryrun'], fn_name='dryrun_case', gen_mode='filter', label='dryrun')
@@ -329,6 +384,7 @@ def _missing(r):
 
 def finish(ctx, t0):
     pid, spec = ctx.pid, ctx.spec
+    ctx.known_lines = list(dict.fromkeys(ctx.known_lines))
     for l in ctx.known_lines:
         print(l)
     obligations = len(ctx.obligations)
@@ -413,4 +469,4 @@ def replay(ctx, path):
     return check(ctx, time.time())
 
 
-REPLAYERS = {'stream': _replay_stream, 'e2e': _replay_e2e}
+REPLAYERS = {'stream': _replay_stream, 'e2e': _replay_e2e, 'e2e_sanity': _replay_sanity}
